@@ -25,10 +25,16 @@ type c19cfg struct {
 	runSize uint64
 	removed map[int]bool
 	setCols bool // ingest style (SetColumns) vs collector style (PK only)
+	// prelude: the same Sorter first sorts another table and is Reset (as doctor / re-ingest do)
+	prelude *c19cfg
 }
 
 func (k *c19cfg) String() string {
-	return fmt.Sprintf("pk=%v rows=%q runSize=%d removed=%v setColumns=%v", k.pk, k.rows, k.runSize, keysOf(k.removed), k.setCols)
+	d := fmt.Sprintf("pk=%v rows=%q runSize=%d removed=%v setColumns=%v", k.pk, k.rows, k.runSize, keysOf(k.removed), k.setCols)
+	if k.prelude != nil {
+		d += fmt.Sprintf(" after the same sorter sorted {cols=%q pk=%v rows=%q} and was Reset", k.prelude.cols, k.prelude.pk, k.prelude.rows)
+	}
+	return d
 }
 
 func keysOf(m map[int]bool) []int {
@@ -45,6 +51,27 @@ func c19newSorter(k *c19cfg) (*sorter.Sorter, error) {
 	s, err := sorter.NewSorter(sorter.WithRunSize(k.runSize))
 	if err != nil {
 		return nil, err
+	}
+	if p := k.prelude; p != nil {
+		s.SetColumns(p.cols)
+		s.PK = make([]uint32, len(p.pk))
+		for i, x := range p.pk {
+			s.PK[i] = uint32(x)
+		}
+		for _, r := range p.rows {
+			if err := s.AddRow(r); err != nil {
+				return nil, err
+			}
+		}
+		errCh := make(chan error, 4)
+		for range s.SortedBlocks(context.Background(), nil, errCh) {
+		}
+		select {
+		case e := <-errCh:
+			return nil, e
+		default:
+		}
+		s.Reset()
 	}
 	if k.setCols {
 		s.SetColumns(k.cols)
@@ -261,6 +288,17 @@ func c19Body(c *mc.Ctx) {
 	k.runSize = []uint64{1 << 40, 1, 21}[c.Choose(3)]
 	style := c.Choose(2)
 	k.setCols = style == 0
+	if k.setCols && (nr <= 3 || c.Thorough()) {
+		// non-initial state: the sorter was used for another table before and Reset
+		switch c.ChooseDev(4) {
+		case 1:
+			k.prelude = &c19cfg{cols: []string{"u", "v"}, rows: [][]string{{"1", "w"}, {"0", "z"}}}
+		case 2:
+			k.prelude = &c19cfg{cols: []string{"u", "v", "w", "x"}, pk: []int{3}, rows: [][]string{{"1", "w", "", "k"}}}
+		case 3:
+			k.prelude = &c19cfg{cols: []string{"u"}, rows: [][]string{{"b"}, {"a"}, {"b"}}}
+		}
+	}
 	if !k.setCols {
 		if len(k.pk) == 0 {
 			c.Skip() // a keyless sorter without columns is the merge collector's configuration: judged in C05
@@ -315,7 +353,7 @@ func init() {
 		ID:    "C19",
 		Level: "exploration",
 		Rule: "every sequence of 0..4 (thorough 5) rows over 3 columns with cells {'',a,b}x{'',a}x{x,y} x key in {none,[0],[1],[0,1],[1,0],[2,0]} x run size in {nothing spills, every row spills alone, spill after ~2 rows} " +
-			"x configuration {SetColumns as ingest does; key only with every subset of non-key columns removed as the merge collector does}; both outputs (SortedBlocks, SortedRows) of two identically fed sorters are compared with " +
+			"x configuration {SetColumns as ingest does, optionally on a Sorter that already sorted another table (narrower, wider, keyed) and was Reset; key only with every subset of non-key columns removed as the merge collector does}; both outputs (SortedBlocks, SortedRows) of two identically fed sorters are compared with " +
 			"(plus, under the build-time overlay that scales the block size to 3 rows: every sequence of 0..5 (8) rows over 5 keys so that duplicates and spills straddle block boundaries) " +
 			"sort+dedupe of the input (component-wise byte order), with each other, block first keys with the blocks' first rows, and TMPDIR is listed after Close. non-trivial = at least two rows; distinct by full case description",
 		Assumptions: []string{
@@ -324,7 +362,7 @@ func init() {
 			"keyless sorter without columns (merge collector on keyless tables) is judged by C05, not here",
 		},
 		Harnesses: []*mc.Harness{
-			{Name: "small-rows", Body: c19Body, Budget: map[string]time.Duration{"quick": 60 * time.Second, "thorough": 10 * time.Minute}},
+			{Name: "small-rows", Body: c19Body, DevBound: map[string]int{"quick": 1, "thorough": 1}, Budget: map[string]time.Duration{"quick": 60 * time.Second, "thorough": 10 * time.Minute}},
 			{Name: "b3-block-boundaries", Variant: "b3", Body: c19BodyB3, DevBound: map[string]int{"quick": 2, "thorough": 3},
 				Budget: map[string]time.Duration{"quick": 45 * time.Second, "thorough": 10 * time.Minute}},
 		},
